@@ -22,7 +22,6 @@ import (
 	"net/http"
 	"os"
 	"path/filepath"
-	"sort"
 	"strconv"
 	"strings"
 	"sync"
@@ -51,7 +50,13 @@ type op struct {
 	Ms int    `json:"ms,omitempty"` // sleep
 }
 
-var sleepsMs = []int{1, 100, 250, 500, 1000, 4000, 20000, 61000, 125000, 600000, 1000000}
+// Every sleep is 7 ms more than a multiple of 250 ms, and 7 ms are slept after every (re)open. All waits of the system
+// under test are multiples of 250 ms, so a retry timer never fires in the same virtual instant as the purge ticker
+// (anchored at the open): two timers waking ONE natively blocked select in the same instant are delivered in an
+// order the simulator does not control (they may live on different Ps) - seen as selftest mismatches before.
+var sleepsMs = []int{7, 257, 507, 1007, 4007, 20007, 61007, 125007, 600007, 1000007}
+
+const openSettle = 7 * time.Millisecond
 
 func gen(r *hx.Run) []json.RawMessage {
 	remaining := r.Ops.Range(1, 30, "batches")
@@ -61,7 +66,7 @@ func gen(r *hx.Run) []json.RawMessage {
 		prog = append(prog, b)
 	}
 	tail := -1
-	for guard := 0; guard < 200; guard++ {
+	for guard := 0; guard < 120; guard++ {
 		if remaining == 0 {
 			// a few more operations after the last enqueue (a restart or an outage with nothing new arriving)
 			if tail < 0 {
@@ -125,7 +130,7 @@ var kindName = [...]string{"204", "500", "503", "429", "429-retry-after-n", "429
 
 var retrySecs = []int{1, 3, 30, 200, 1000, 2000}
 var retryGarbage = []string{"soon", "1.5", "Fri, 31 Dec 1999 23:59:59 GMT", "5s", "0x10"}
-var retryWeird = []string{"-5", "9223372037", "00", "-0"}
+var retryWeird = []string{"-5", "-1", "9223372037"}
 
 const (
 	remoteURL   = "http://remote.sim:8086"
@@ -200,6 +205,7 @@ type attempt struct {
 	req              *request
 	success          bool
 	wait             time.Duration
+	atLeast          bool // any delay of at least wait is fine
 	rule             string
 }
 
@@ -235,20 +241,20 @@ type world struct {
 	r  *hx.Run
 	mu sync.Mutex // guards everything below (plain mutex: never held across a call into instrumented code)
 
-	seq      uint64
-	batches  []*batch
-	byText   map[string]int
-	reqs     []*request
-	atts     []*attempt
-	incs     []*incarnation
-	cur      *incarnation
-	curAtt   *attempt
-	failN    int
-	ph       *phase
-	netLevel int
-	cfgLevel int
-	maxRA    time.Duration
-	weird    bool
+	seq       uint64
+	batches   []*batch
+	byText    map[string]int
+	reqs      []*request
+	atts      []*attempt
+	incs      []*incarnation
+	cur       *incarnation
+	curAtt    *attempt
+	failN     int
+	ph        *phase
+	netLevel  int
+	cfgLevel  int
+	maxRA     time.Duration
+	weird     bool
 	allowKick bool
 
 	drop      bool
@@ -262,15 +268,16 @@ type world struct {
 	qdir                string
 	qm                  queueManager
 
-	conns   []net.Conn
-	wg      sync.WaitGroup
-	images  []image
-	imgCap  int
-	cutDen  int
-	viol    []pendingViol
+	conns       []net.Conn
+	wg          sync.WaitGroup
+	images      []image
+	imgCap      int
+	cutDen      int
+	viol        []pendingViol
 	faultsFired int
 	restarts    int
 	usedAck     uint64
+	reported    map[string]bool
 }
 
 type pendingViol struct {
@@ -292,24 +299,32 @@ func (w *world) violate(class, sig, format string, args ...any) {
 	w.viol = append(w.viol, pendingViol{class: class, sig: sig, detail: fmt.Sprintf(format, args...)})
 }
 
-func (w *world) flush() {
-	// the systematic "new write cuts the retry delay short" finding goes last so that it never hides another one
-	sort.SliceStable(w.viol, func(i, j int) bool { return !w.viol[i].late && w.viol[j].late })
-	seen := map[string]bool{}
+func (w *world) flush(all bool) {
+	// the systematic findings marked late (a new write cuts the retry delay short, odd Retry-After values) are held
+	// back until the crash images have been checked and go last, so that they never hide or suppress anything else
+	var keep []pendingViol
 	for _, v := range w.viol {
-		if seen[v.class+"|"+v.sig] {
+		if v.late && !all {
+			keep = append(keep, v)
 			continue
 		}
-		seen[v.class+"|"+v.sig] = true
+		if w.reported[v.class+"|"+v.sig] {
+			continue
+		}
+		w.reported[v.class+"|"+v.sig] = true
 		w.r.Violate(v.class, v.sig, "%s", v.detail)
 	}
-	w.viol = nil
+	w.viol = keep
 }
 
 func (w *world) next() uint64 { w.seq++; return w.seq }
 
+// aged: the batch may have been purged by max age. PurgeOlderThan drops a segment whose mtime (not older than its
+// last append) is before now - maxAge; it runs when the run goroutine gets to a purge tick, which can be long after
+// the tick fired (the goroutine may sit in a stalled request), so nothing sharper than "older than the max age now"
+// can be demanded (a sharper rule tied to the 60 s grid was tried and was wrong: replay of seed 1006371).
 func (w *world) aged(b *batch, now time.Time) bool {
-	return w.canPurge && now.Sub(b.tEnq) >= w.maxAge
+	return w.canPurge && now.Sub(b.tEnq) > w.maxAge
 }
 
 func (w *world) owed(p *phase, b *batch) bool {
@@ -396,8 +411,15 @@ func (w *world) endAttempt(a *attempt, status int) {
 		}
 	case code == 429:
 		a.rule, a.wait = "429 Retry-After="+strconv.Quote(ra), retryAfter(ra, a.n)
-		if w.weird && a.req.kind == k429weird {
+		if a.req.kind == k429weird {
+			// observing configuration: judged by what Retry-After means (RFC 9110: a non-negative number of seconds),
+			// not by what the code computes: a negative value is garbage (-> back-off), a huge one means "a long time"
 			a.rule = "weird " + a.rule
+			a.wait = backoff(a.n)
+			if !strings.HasPrefix(ra, "-") {
+				a.wait = 15 * time.Minute
+				a.atLeast = true
+			}
 		}
 	case code != 0:
 		a.rule, a.wait = strconv.Itoa(code), backoff(a.n)
@@ -739,6 +761,7 @@ func (w *world) mainRun(prog []json.RawMessage) {
 		r.Violate("C27:open-failed", "initialize-queue", "InitializeQueue on a fresh directory failed: %v", err)
 		return
 	}
+	simrt.Sleep(openSettle, 0)
 	for _, raw := range prog {
 		if r.Aborted {
 			return
@@ -777,6 +800,7 @@ func (w *world) mainRun(prog []json.RawMessage) {
 				r.Violate("C27:open-failed", "start-replication-queues", "StartReplicationQueues failed with no disk fault: %v", err)
 				return
 			}
+			simrt.Sleep(openSettle, 0)
 			w.mu.Lock()
 			r.Probe("probe_clean_restart")
 			w.restarts++
@@ -872,7 +896,7 @@ func (w *world) checkImage(k int, im image) {
 		w.close()
 	})
 	w.mu.Lock()
-	w.flush()
+	w.flush(false)
 	w.mu.Unlock()
 }
 
@@ -912,24 +936,22 @@ func (w *world) judgeDelays() {
 		}
 		d := b.tStart.Sub(a.tEnd)
 		switch {
-		case d-want <= tol && want-d <= tol:
+		case d-want <= tol && want-d <= tol, a.atLeast && d >= want:
 			r.Probe("probe_delay_checked")
 			if a.n >= 10 {
 				r.Probe("probe_backoff_capped")
 			}
+		case d < want && !weird && w.kicked(a, b):
+			r.Probe("probe_retry_cut_short_by_enqueue")
+			if !w.allowKick {
+				w.viol = append(w.viol, pendingViol{class: "C27:retry-delay", sig: "retry-early-on-enqueue", late: true,
+					detail: fmt.Sprintf("attempt #%d (batch %d, %d earlier failures, outcome %s) ended at %s and the retry rule asks for %v, but the next attempt started after only %v (at %s): a new local write (EnqueueData) re-ran the scanner and posted to the remote without waiting",
+						a.no, bno(a), a.n, a.rule, ts(a.tEnd), want, d, ts(b.tStart))})
+			}
 		case weird:
 			w.viol = append(w.viol, pendingViol{class: "C27:retry-after-weird", sig: "weird-retry-after", late: true,
-				detail: fmt.Sprintf("attempt #%d got %s; the code turns that into a wait of %v; the next attempt came %v later", a.no, a.rule, a.wait, d)})
+				detail: fmt.Sprintf("attempt #%d (batch %d, %d earlier failures) got %s, which is not a valid delay: a wait of (at least) %v is expected, the next attempt came %v later (writer.waitTimeFromHeader turns the value into a negative duration and the retry timer fires at once)", a.no, bno(a), a.n, a.rule, want, d)})
 		case d < want:
-			if w.kicked(a, b) {
-				r.Probe("probe_retry_cut_short_by_enqueue")
-				if !w.allowKick {
-					w.viol = append(w.viol, pendingViol{class: "C27:retry-delay", sig: "retry-early-on-enqueue", late: true,
-						detail: fmt.Sprintf("attempt #%d (batch %d, %d earlier failures, outcome %s) ended at %s and the retry rule asks for %v, but the next attempt started after only %v (at %s): a new local write (EnqueueData) re-ran the scanner and posted to the remote without waiting",
-							a.no, bno(a), a.n, a.rule, ts(a.tEnd), want, d, ts(b.tStart))})
-				}
-				continue
-			}
 			w.violate("C27:retry-delay", "retry-too-early:"+ruleSig(a.rule), "attempt #%d (batch %d, %d earlier failures, outcome %s) ended at %s; the rule asks for %v before the next attempt, but attempt #%d started after %v (at %s) and no local write happened in between",
 				a.no, bno(a), a.n, a.rule, ts(a.tEnd), want, b.no, d, ts(b.tStart))
 		default:
@@ -1006,7 +1028,7 @@ func (w *world) kicked(a, b *attempt) bool {
 // ------------------------------------------------------------------------------------------------
 
 func exec(r *hx.Run, prog []json.RawMessage) {
-	w := &world{r: r, byText: map[string]int{}, id: 0x1111, orgID: 0x2222, bucketID: 0x3333, remoteOrg: 0x4444, remoteBk: 0x5555}
+	w := &world{r: r, byText: map[string]int{}, reported: map[string]bool{}, id: 0x1111, orgID: 0x2222, bucketID: 0x3333, remoteOrg: 0x4444, remoteBk: 0x5555}
 	w.ph = &phase{name: "live", accepted: map[int]bool{}, dropped: map[int]bool{}}
 	fs := r.NewFS("disk")
 	w.qdir = filepath.Join(fs.Root, "replicationq")
@@ -1046,7 +1068,7 @@ func exec(r *hx.Run, prog []json.RawMessage) {
 	if !r.Aborted {
 		w.judgeDelays()
 	}
-	w.flush()
+	w.flush(false)
 	images := w.images
 	w.mu.Unlock()
 	for k, im := range images {
@@ -1057,6 +1079,7 @@ func exec(r *hx.Run, prog []json.RawMessage) {
 	}
 	// no goroutine may outlive the bubble: close every pipe end and wait for the remote's goroutines
 	w.mu.Lock()
+	w.flush(true)
 	conns := w.conns
 	w.mu.Unlock()
 	for _, c := range conns {
